@@ -32,12 +32,12 @@ class Progress(Event):
     msg: str
 
 
-class RaceWorkflow(Workflow):
-    @step
-    async def finisher(self, ctx: Context, ev: StartEvent) -> StopEvent:
-        await asyncio.sleep(0.05)
-        return StopEvent(result="done")
+class Done(StopEvent):
+    """a custom stop event: terminal like StopEvent itself (added to the scenario after an independent seeded change
+    that recognised only the plain class)"""
 
+
+class _Race(Workflow):
     @step
     async def side_job(self, ctx: Context, ev: StartEvent) -> None:
         ctx.write_event_to_stream(Progress(msg="side_job started"))
@@ -50,8 +50,21 @@ class RaceWorkflow(Workflow):
         return None
 
 
-async def main() -> int:
-    wf = RaceWorkflow(timeout=10)
+class RaceWorkflow(_Race):
+    @step
+    async def finisher(self, ctx: Context, ev: StartEvent) -> StopEvent:
+        await asyncio.sleep(0.05)
+        return StopEvent(result="done")
+
+
+class RaceWorkflowCustomStop(_Race):
+    @step
+    async def finisher(self, ctx: Context, ev: StartEvent) -> Done:
+        await asyncio.sleep(0.05)
+        return Done(result="done")
+
+async def main(cls=None) -> int:
+    wf = (cls or RaceWorkflow)(timeout=10)
     handler = wf.run()
 
     seen: list[Event] = []
@@ -80,7 +93,7 @@ async def main() -> int:
     print("published after the stream closed:", [_fmt(e) for e in late])
 
     ok = True
-    if result != "done":
+    if getattr(result, "result", result) != "done":
         print("unexpected result")
         ok = False
     if len(terminal_idx) != 1:
@@ -107,4 +120,6 @@ def _fmt(e: Event) -> str:
 
 
 if __name__ == "__main__":
-    sys.exit(asyncio.run(main()))
+    rc = asyncio.run(main(RaceWorkflow))
+    rc2 = asyncio.run(main(RaceWorkflowCustomStop))
+    sys.exit(1 if (rc or rc2) else 0)
